@@ -932,6 +932,60 @@ async fn interaction_lane(mon: &Monitor, rng: &mut Rng) {
     }
 }
 
+/// `remove_node` returns at once and finishes in a background task. A computation that starts in
+/// between still sees the node; once both have finished the node must be unknown all the same:
+/// its query returns 0 and no later computation brings it back.
+async fn removal_overlap_lane(mon: &Monitor, h: &Hist, rng: &mut Rng) {
+    let eng = new_engine(h);
+    let mut pre: BTreeSet<u32> = h.init_pre.iter().copied().collect();
+    for op in &h.ops {
+        match op {
+            Op::AddPre(x) => {
+                pre.insert(*x);
+            }
+            Op::RemPre(x) => {
+                pre.remove(x);
+            }
+            _ => {}
+        }
+        if let Some((_, wall)) = apply(&eng, &h.ids, op).await {
+            if wall > SLOW {
+                return;
+            }
+        }
+    }
+    let m0 = eng.compute_global_trust().await;
+    let cands: Vec<u32> = (0..h.ids.len() as u32).filter(|i| !pre.contains(i) && m0.get(&h.ids[*i as usize]).is_some_and(|s| *s > 0.0)).collect();
+    if cands.is_empty() {
+        mon.count("removal_overlap.skipped.no-scored-non-anchor", 1);
+        return;
+    }
+    let x = *rng.pick(&cands);
+    let id = &h.ids[x as usize];
+    let before = eng.get_trust(id);
+    // no yield between the removal and the computation
+    eng.remove_node(id);
+    let m1 = eng.compute_global_trust().await;
+    settle().await;
+    settle().await;
+    mon.eval();
+    mon.case(("removal-overlap", n_bucket(m0.len()), m1.contains_key(id)));
+    mon.count("removal_overlap.runs", 1);
+    let g1 = eng.get_trust(id);
+    let m2 = eng.compute_global_trust().await;
+    settle().await;
+    let g2 = eng.get_trust(id);
+    if g1 != 0.0 || g2 != 0.0 || m2.contains_key(id) {
+        let cx = Ctx { mon, h };
+        mon.violation(
+            "get-trust/removed-peer-nonzero/computation-overlapping-the-removal",
+            json!({"peer": short(&h.ids, x), "score_before_removal": before, "overlapping_computation_scored_it": m1.contains_key(id),
+                   "get_trust_after_both_finished": g1, "get_trust_after_next_computation": g2, "next_computation_scored_it": m2.contains_key(id),
+                   "history": cx.hist_detail(h.ops.len())}),
+        );
+    }
+}
+
 fn big(rng: &mut Rng) -> u64 {
     match rng.below(9) {
         0 => 0,
@@ -1162,6 +1216,9 @@ fn main() {
                 }
                 let h = gen_history(&mut rng);
                 run_history(&mon, &h, &mut rng, k).await;
+                if k % 3 == 1 {
+                    removal_overlap_lane(&mon, &h, &mut rng).await;
+                }
                 mon.count("histories", 1);
                 mon.count(&format!("histories.class{}", h.class), 1);
                 if k % 211 == 3 && h.class == 1 && mon.want_sample() {
